@@ -12,7 +12,8 @@
 (* model of the main module equals that of the literal spelling ("same"),  *)
 (* or resolution fails ("error") for the negative variants                 *)
 (*   missing   a used reference is defined nowhere,                        *)
-(*   wrongKind a reference used as a number names a BOOLEAN / string,      *)
+(*   wrongKind a reference used as a number names a BOOLEAN,               *)
+(*   wrongKindStr  ... names a character string whose TEXT is the number, *)
 (*   negSize   a negative number is referenced as a SIZE bound.            *)
 (***************************************************************************)
 EXTENDS Integers, Sequences, FiniteSets, TLC, Json, SequencesExt
@@ -44,7 +45,7 @@ Bases == << [tpl |-> "intRange",     slots |-> << <<"lb", "int">>, <<"ub", "int"
 \* object identifier that is a strict prefix (kinShort) / a strict extension (kinLong) of the imported one
 Placements == {"same", "sibName", "sibOid", "decoy", "rival", "kinShort", "kinLong"}
 \* unimported: the sibling defines the names but Main has no IMPORTS clause for them
-Negatives == {"missing", "wrongKind", "negSize", "unimported"}
+Negatives == {"missing", "wrongKind", "wrongKindStr", "negSize", "unimported"}
 
 \* the module list of a placement and all its load orders
 Mods(p) == IF p = "same" THEN <<"Main">> ELSE IF p = "decoy" THEN <<"Main", "Lib", "Decoy">>
@@ -66,7 +67,7 @@ Case(b, S, p, ord, neg) ==
               /\ (CHOOSE i \in 1..Len(ord) : ord[i] = "Decoy") < (CHOOSE i \in 1..Len(ord) : ord[i] = "Lib")
            THEN "ImportNameBeforeOid"
            \* open finding: the kind of a referenced DEFAULT value is not checked against the component type
-           ELSE IF "DefaultKindNotChecked" \in Dev /\ neg = "wrongKind" /\ S = {"d"} THEN "DefaultKindNotChecked" ELSE ""]
+           ELSE IF "DefaultKindNotChecked" \in Dev /\ neg \in {"wrongKind", "wrongKindStr"} /\ S = {"d"} THEN "DefaultKindNotChecked" ELSE ""]
 
 VARIABLES st, c
 Init == st = "seed" /\ c \in Positive
@@ -75,7 +76,7 @@ Next ==
   /\ \/ \E S \in SUBSET SlotNames(c.b), ord \in Orders(c.placement) : c' = Case(c.b, S, c.placement, ord, "")
      \/ \E s \in SlotNames(c.b), ord \in Orders(c.placement), neg \in Negatives :
            /\ (neg = "negSize" => Bases[c.b].slots[KindOf(c.b, s)][2] = "size")
-           /\ (neg = "wrongKind" => Bases[c.b].slots[KindOf(c.b, s)][2] \in {"int", "size"})
+           /\ (neg \in {"wrongKind", "wrongKindStr"} => Bases[c.b].slots[KindOf(c.b, s)][2] \in {"int", "size"})
            /\ c.placement \notin {"decoy", "kinShort", "kinLong"}
            /\ (neg = "unimported" => c.placement \in {"sibName", "rival"})
            /\ (c.placement = "rival" => neg \in {"missing", "unimported"})
